@@ -750,6 +750,10 @@ class Translator:
         raise Unmodelled("call of %r" % (callee,))
 
     def method_call(self, obj, name, args, kwargs, n, mod, depth):
+        if isinstance(obj, np.ndarray) and name == "copy" and not args:
+            return obj.copy()
+        if isinstance(obj, np.ndarray) and name == "tolist" and not args:
+            return obj.tolist()
         if isinstance(obj, (list, str, tuple)) and name == "index":
             return sp.Integer(obj.index(args[0]))
         if isinstance(obj, str) and name == "format":
@@ -1271,6 +1275,10 @@ class Translator:
                     out[i] = f(A[i], B[i])
                 return out
             return f(a, b)
+        if is_arr(a) and isinstance(b, (list, tuple)) and b and all(is_sym(x) or isinstance(x, (int, float)) for x in b):
+            b = as_arr(list(b))  # numpy converts the list operand
+        if is_arr(b) and isinstance(a, (list, tuple)) and a and all(is_sym(x) or isinstance(x, (int, float)) for x in a):
+            a = as_arr(list(a))
         if is_arr(a) or is_arr(b):
             A = a if is_arr(a) else _s(a)
             B = b if is_arr(b) else _s(b)
